@@ -27,6 +27,13 @@ K2 = 7.0     # constant of the shadow manager "sm2" (never touched by settings)
 GRID = [1.0, 1.0]   # (start, dt) of the reference model of the current Srv; Server.tla counts steps 1, 2, 3, ... and integrates per step
 
 
+NAMES = {"base": "base", "high": "high"}      # scenario names of the specification -> names the current Srv registers them under
+
+
+def nm(sc):
+    return NAMES.get(sc, sc)
+
+
 def spec_t(t):
     """model time -> the step number the specification uses (start -> 1)"""
     return 1.0 + (float(t) - GRID[0]) / GRID[1]
@@ -49,12 +56,12 @@ def make_factory(stop, base_constants=False, two=False, grid=(1.0, 1.0)):
         k.equation = 1.0
         b = BPTK_Py.bptk()
         b.register_scenario_manager({"sm": {"model": model}})
-        b.register_scenarios(scenario_manager="sm", scenarios={"base": ({"constants": {"k": 1.0}} if base_constants else {}),
-                                                               "high": {"constants": {"k": 5.0}}})
+        b.register_scenarios(scenario_manager="sm", scenarios={nm("base"): ({"constants": {"k": 1.0}} if base_constants else {}),
+                                                               nm("high"): {"constants": {"k": 5.0}}})
         if two:
             b.register_scenario_manager({"sm2": {"model": model}})
             # the shadow manager also has a scenario that the first manager does not know: sessions name it too
-            b.register_scenarios(scenario_manager="sm2", scenarios={"base": {"constants": {"k": K2}}, "high": {"constants": {"k": K2}},
+            b.register_scenarios(scenario_manager="sm2", scenarios={nm("base"): {"constants": {"k": K2}}, nm("high"): {"constants": {"k": K2}},
                                                                     "only2": {"constants": {"k": K2}}})
         return b
     return factory
@@ -83,8 +90,9 @@ def make_file_factory(stop, base_constants, workdir):
 
 class Srv:
     def __init__(self, stop=4, adapter=False, compress=False, token=None, unit="seconds", state_dir=None, base_constants=False, two=False, grid=(1.0, 1.0),
-                 files=False):
+                 files=False, names=None):
         GRID[0], GRID[1] = float(grid[0]), float(grid[1])
+        NAMES.update(names or {"base": "base", "high": "high"})
         self._filedir = None
         if files:
             import sys
@@ -173,7 +181,7 @@ class Srv:
         return self.ids.get(i, "0" * 32 + str(i))
 
     def settings(self, sc, k):
-        return {"sm": {sc: {"constants": {"k": float(k)}}}}
+        return {"sm": {nm(sc): {"constants": {"k": float(k)}}}}
 
     def timeout_dict(self, to):
         if self.unit == "mixed":        # tick = 1 second, timeouts spelled with two units
@@ -219,7 +227,7 @@ class Srv:
         inst.destroy = destroy
 
     def begin(self, i, sc, kv):
-        body = {"scenario_managers": ["sm", "sm2"] if self.two else ["sm"], "scenarios": [sc, "only2"] if self.two else [sc], "equations": ["s", "f", "k"]}
+        body = {"scenario_managers": ["sm", "sm2"] if self.two else ["sm"], "scenarios": [nm(sc), "only2"] if self.two else [nm(sc)], "equations": ["s", "f", "k"]}
         if kv > 0:
             body["settings"] = self.settings(sc, kv)
         return self.req("POST", "/%s/begin-session" % self.uid(i), body)
@@ -310,6 +318,7 @@ def _shadow_ok(eqs, t):
 
 def row_of(data, sc, two=False):
     """project a run-step body to the spec's row"""
+    sc = nm(sc)
     if data is None:
         return {"msg": "null"}
     if isinstance(data, dict) and "msg" in data:
@@ -334,6 +343,7 @@ def row_of(data, sc, two=False):
 
 def rows_of(data, sc, two=False):
     """project a session-results body to the spec's row list"""
+    sc = nm(sc)
     if data == {}:
         return []
     try:
